@@ -5,9 +5,17 @@ P("C02",
   design_ref="DESIGN.md §3 C02",
   technique="Coq proof over the executable engine model (Lib/Engine.v: run_until, run, run_segments) for all handler programs and "
             "all boundary lists + exact correspondence with timing.SerialEngine.RunUntil/Run by vm_compute",
-  level_text="(stage a) model and exact tie; theorems follow",
-  level_note="Trusted: Coq kernel + vm_compute; the Go harness (script interpreter, trace recording); the hand-written model.",
+  level_text="c02_concat: for EVERY handler program (even panicking ones), engine state and boundary list (any order, repeats), if a single Run "
+             "ends within the fuel bound then RunUntil b1;..;RunUntil bk;Run ends too, all calls but the last return, the concatenated logs "
+             "equal the single Run's log and the final outcome/handler state/engine state are equal (induction over the boundary list with "
+             "c02_run_until_split). c02_segment_exact: for programs that never schedule in the past, a returning RunUntil(t) handled exactly the "
+             "entries with time <= t among queued-before + scheduled-during, left exactly the later ones queued, clock = last handled time; "
+             "c02_driver_segments_exact chains this over the driver; c02_run_until_safe. The model is compared with timing.SerialEngine "
+             "(segments and a fresh single Run: steps, clock, queued events after every call, outcome).",
+  level_note="Trusted: Coq kernel + vm_compute; the Go harness (script interpreter on the Go side, trace recording, checkpoint parsing); the hand-written "
+             "model of serialengine.go (tied by exact equality). holds_on checks the observed segments against the observed single Run, independent of the model.",
   quick_shards=8,
-  assumptions=["nextSeq and event times are unbounded naturals (a uint64 wrap needs 2^64 pushes / times near 2^64)"],
+  assumptions=["nextSeq and event times are unbounded naturals (a uint64 wrap needs 2^64 pushes / times near 2^64)",
+               "handlers only call Schedule/CurrentTime on the engine; single-threaded use (no Pause during the calls)"],
   trusted=["modelled, not verified: timing/serialengine.go (RunUntil, Run, nextEventTime, dispatchNext, nextEvent, Schedule), timing/eventqueue.go"],
   )
